@@ -73,11 +73,14 @@ def tdvp_case(ctx, idx, rng):
     psi_copy = copy.deepcopy(psi)
     trace = []
     bond = []
+    first = []
 
     def around_h(orig, Lb, Rb, W, A, dt_, numiter_):
         # entry of a local Hamiltonian step: every earlier sub-step has been stored, psi is a valid MPS of the current state
         try:
             v = refs.dense_state(psi.A)
+            if not trace:
+                first.append(float(np.linalg.norm(v - v_in / n_in)))
             trace.append((float(np.linalg.norm(v)), float(np.real(np.vdot(v, mH @ v)))))
         except Exception as e:          # the monitor must never disturb the run
             trace.append((float('nan'), float('nan')))
@@ -110,6 +113,8 @@ def tdvp_case(ctx, idx, rng):
     tr = np.array(trace) if trace else np.zeros((0, 2))
     expected_points = nsteps * ((3 * (L - 2) + 1 + (L - 2)) if two else (2 * (L - 1) + 1)) if L >= 2 or not two else 0
     ctx.ok('trace.points-observed', len(tr) >= 1, 'no trace point reached: the internal hook was not observed', detail)
+    if first:
+        ctx.close('trace.evolution-starts-from-normalised-input', first[0], 1e-10, 'state at the first internal step is not the normalised input', detail)
     if len(tr):
         ctx.close('trace.norm-at-every-substep', float(np.nanmax(np.abs(tr[:, 0] - 1))) if not np.isnan(tr).any() else float('nan'), TOL, 'norm deviates at an internal trace point', detail)
         ctx.close('trace.energy-at-every-substep', float(np.nanmax(np.abs(tr[:, 1] - E0))) if not np.isnan(tr).any() else float('nan'), TOL * nH, 'energy deviates at an internal trace point', detail)
@@ -132,11 +137,15 @@ def tdvp_case(ctx, idx, rng):
     psi2.A[int(rng.integers(0, L))] *= c
     ret2 = fn(H, psi2, dt, nsteps, numiter_lanczos=numiter)
     ctx.close('scale-invariance.return', abs(float(ret2) - c * n_in), TOL * c * n_in, 'return value does not scale with the input norm', detail)
-    if not regular:
+    # with a poor Krylov space and a large |dt| ||H|| the discrete dynamics amplifies rounding differences exponentially
+    # (measured: numiter = 2, |dt| ||H|| ~ 10: 1e-15 -> 0.1); the state comparison is therefore restricted to the benign regime,
+    # the statement itself ("evolve the normalised input") is decided by the first trace point above
+    benign = abs(dt) * nH <= 0.3
+    if not regular or not benign:
         ctx.skip('scale-invariance.state')
-        ctx.event('rank_deficient_start')
+        ctx.event('rank_deficient_start' if not regular else 'stiff_regime')
     elif refs.mps_invariant(psi2) is None:
-        ctx.close('scale-invariance.state', np.linalg.norm(refs.dense_state(psi2.A) - v_out), 1e-9, 'evolved state depends on the norm of the input', detail)
+        ctx.close('scale-invariance.state', np.linalg.norm(refs.dense_state(psi2.A) - v_out), 1e-6, 'evolved state depends on the norm of the input', detail)
     # repeated call on the same (already evolved) state: returns 1, keeps conserving
     if idx % 4 == 0:
         r3 = fn(H, psi, dt, 1, numiter_lanczos=numiter)
@@ -154,7 +163,7 @@ SPEC = {
              'points); every local site/bond step must preserve the norm of its tensor; return value, scale invariance, repeated call, bond dims, '
              'Hamiltonian digest + write trap. distinct = (integrator, model, L, profile, numiter, steps).'),
     'deciding': ['norm-conserved', 'energy-conserved', 'trace.norm-at-every-substep', 'trace.energy-at-every-substep', 'return==norm-of-input',
-                 'hamiltonian-untouched', 'singlesite.bond-dims-never-grow', 'scale-invariance.state', 'trace.points-observed'],
+                 'hamiltonian-untouched', 'singlesite.bond-dims-never-grow', 'trace.evolution-starts-from-normalised-input', 'trace.points-observed'],
     'workloads': [
         Workload('tdvp', tdvp_case, quick=260, thorough=8000),
     ],
